@@ -199,6 +199,13 @@ func (s *shSys) apply(op string) bool {
 			s.complete(0, len(s.promises)%2 == 0)
 		}
 	default:
+		if strings.HasPrefix(op, "u") {
+			// latencies are not whole milliseconds: they are recorded rounded up
+			var us int
+			fmt.Sscanf(op, "u%d", &us)
+			vrt.Advance(time.Duration(us) * time.Microsecond)
+			break
+		}
 		var ms int
 		fmt.Sscanf(op, "t%d", &ms)
 		vrt.Advance(time.Duration(ms) * time.Millisecond)
@@ -259,7 +266,7 @@ func TestVerifShedder(t *testing.T) {
 	logx.Disable()
 	DisableLog()
 	stat.SetReporter(nil)
-	ops := []string{"allow", "load", "allow20", "pass1", "passnew", "pass5", "fail1", "settle", "cpuhi", "cpulo", "hot", "t10", "t100", "t600", "t1000", "t5000"}
+	ops := []string{"allow", "load", "allow20", "pass1", "passnew", "pass5", "fail1", "settle", "cpuhi", "cpulo", "hot", "u300", "u1500", "t10", "t100", "t600", "t1000", "t5000"}
 	depth := 5
 	if vrt.Thorough() {
 		depth = 7
